@@ -33,6 +33,17 @@ type c16Assign struct {
 	alsoDefault string
 }
 
+// candidate file names carry characters that only a shell or a template engine would interpret
+// ($NAME, ${NAME}, ~, %): every level must take its value literally
+const (
+	c16DbFlag  = "db_flag_$HOME.yaml"
+	c16DbEnv   = "db_env_${PATH}.yaml"
+	c16DbConf  = "db_conf_$book~%d.yaml"
+	c16LogFlag = "log_flag_$1.yaml"
+	c16LogEnv  = "log_env_%s.yaml"
+	c16LogConf = "log_conf_${HOME}$x.yaml"
+)
+
 var c16Settings = []string{"database", "logfile", "date-format", "maxdepth", "today"}
 
 var c16Layouts = map[string]string{"flag": "2006-01-02", "env": "02.01.2006", "conf": "Jan 2 2006", "default": "2006/01/02"}
@@ -91,9 +102,9 @@ func chainBookText(n int) string { return bookText(chainBook(n, nil)) }
 func c16Dir(dir string) error {
 	files := map[string]string{}
 	for _, lv := range []string{"flag", "env", "conf", "default"} {
-		name := map[string]string{"flag": "db_flag.yaml", "env": "db_env.yaml", "conf": "db_conf.yaml", "default": "food.yaml"}[lv]
+		name := map[string]string{"flag": c16DbFlag, "env": c16DbEnv, "conf": c16DbConf, "default": "food.yaml"}[lv]
 		files[name] = fmt.Sprintf("marker_db_%s:\n  x: 1\n", lv)
-		lname := map[string]string{"flag": "log_flag.yaml", "env": "log_env.yaml", "conf": "log_conf.yaml", "default": "log.yaml"}[lv]
+		lname := map[string]string{"flag": c16LogFlag, "env": c16LogEnv, "conf": c16LogConf, "default": "log.yaml"}[lv]
 		// every candidate log exists in every candidate date layout
 		for dl, layout := range c16Layouts {
 			d := time.Date(2021, 1, 24, 0, 0, 0, 0, time.UTC).Format(layout)
@@ -124,10 +135,10 @@ func (e c16Env) exec(a c16Assign, dbOverride, logLayoutFor string, cmd ...string
 	if a.file {
 		var g, rs []string
 		if a.conf["database"] {
-			g = append(g, "DbFileName="+filepath.Join(e.dir, "db_conf.yaml"))
+			g = append(g, "DbFileName="+filepath.Join(e.dir, c16DbConf))
 		}
 		if a.conf["logfile"] {
-			g = append(g, "LogFileName="+filepath.Join(e.dir, "log_conf.yaml"))
+			g = append(g, "LogFileName="+filepath.Join(e.dir, c16LogConf))
 		}
 		if a.conf["date-format"] {
 			g = append(g, "DateFormat="+c16Layouts["conf"])
@@ -157,8 +168,8 @@ func (e c16Env) exec(a c16Assign, dbOverride, logLayoutFor string, cmd ...string
 	}
 	if a.alsoDefault != "" {
 		other := map[string]string{
-			"database":    "[Global]\nDbFileName=" + filepath.Join(e.dir, "db_conf.yaml") + "\n",
-			"logfile":     "[Global]\nLogFileName=" + filepath.Join(e.dir, "log_conf.yaml") + "\n",
+			"database":    "[Global]\nDbFileName=" + filepath.Join(e.dir, c16DbConf) + "\n",
+			"logfile":     "[Global]\nLogFileName=" + filepath.Join(e.dir, c16LogConf) + "\n",
 			"date-format": "[Global]\nDateFormat=" + c16Layouts["conf"] + "\n",
 			"maxdepth":    fmt.Sprintf("[Resolver]\nMaxDepth=%d\n", c16Depth["conf"]),
 		}[a.alsoDefault]
@@ -168,16 +179,16 @@ func (e c16Env) exec(a c16Assign, dbOverride, logLayoutFor string, cmd ...string
 	layoutLevel := a.level("date-format")
 	layout := c16Layouts[layoutLevel]
 	if a.flag["database"] && dbOverride == "" {
-		args = append(args, "-d", "db_flag.yaml")
+		args = append(args, "-d", c16DbFlag)
 	}
 	if a.env["database"] {
-		env["HR_DATABASE"] = "db_env.yaml"
+		env["HR_DATABASE"] = c16DbEnv
 	}
 	if a.flag["logfile"] && logLayoutFor == "" {
-		args = append(args, "--logfile", "log_flag.yaml")
+		args = append(args, "--logfile", c16LogFlag)
 	}
 	if a.env["logfile"] {
-		env["HR_LOGFILE"] = "log_env.yaml"
+		env["HR_LOGFILE"] = c16LogEnv
 	}
 	if a.flag["date-format"] {
 		args = append(args, "--date-format", c16Layouts["flag"])
@@ -211,7 +222,7 @@ func (e c16Env) exec(a c16Assign, dbOverride, logLayoutFor string, cmd ...string
 	if logLayoutFor != "" {
 		// the log of the level in effect, written in the given layout level
 		lv := a.level("logfile")
-		base := map[string]string{"flag": "log_flag", "env": "log_env", "conf": "log_conf", "default": "log"}[lv]
+		base := map[string]string{"flag": strings.TrimSuffix(c16LogFlag, ".yaml"), "env": strings.TrimSuffix(c16LogEnv, ".yaml"), "conf": strings.TrimSuffix(c16LogConf, ".yaml"), "default": "log"}[lv]
 		args = append(args, "-l", base+"."+logLayoutFor+".yaml")
 	}
 	args = append(args, cmd...)
@@ -292,7 +303,7 @@ func runC16(c *core.Ctx) {
 			if a.level("date-format") != "default" {
 				res, args, env, conf := e.exec(a, "", "", "stats")
 				c.Eval(1)
-				want := map[string]string{"flag": "log_flag.yaml", "env": "log_env.yaml", "conf": filepath.Join(e.dir, "log_conf.yaml"), "default": "log.yaml"}[lv]
+				want := map[string]string{"flag": c16LogFlag, "env": c16LogEnv, "conf": filepath.Join(e.dir, c16LogConf), "default": "log.yaml"}[lv]
 				st, _ := obs.ParseStats(res.Out)
 				if res.Exit != 0 || st.Fields["Log file"] != want {
 					fail("wrong-value-in-effect", fmt.Sprintf("stats says log file %q (exit %d), want %s", st.Fields["Log file"], res.Exit, want), res, args, env, conf)
@@ -434,7 +445,7 @@ func runC16(c *core.Ctx) {
 
 	// (3) explicit configuration files
 	e.unshare = false
-	os.WriteFile(filepath.Join(e.dir, "ok.conf"), []byte("[Global]\nLogFileName="+filepath.Join(e.dir, "log_conf.yaml")+"\n"), 0o644)
+	os.WriteFile(filepath.Join(e.dir, "ok.conf"), []byte("[Global]\nLogFileName="+filepath.Join(e.dir, c16LogConf)+"\n"), 0o644)
 	for _, v := range []struct {
 		what string
 		args []string
